@@ -64,6 +64,32 @@ def rule_gate(ctx):
             ctx.ob(R, fm_, lp, ("set_result" in calls_) != ("set_exception" in calls_) and (name == "_notify_assignment_waiters" or "set_result" not in calls_),
                    f"{name} resolves the gate's waiters with {sorted(calls_ & {'set_result', 'set_exception'})}: only _notify_assignment_waiters may complete them normally", text="waiters-resolved-by:" + name)
     ctx.anchor(len(resolvers) == 1, "_notify_assignment_waiters resolving the assignment waiters")
+    # ... and what a gated call parks on is always a NEW, pending, registered future: during a rebalance the old assignment is still
+    # "active" until SyncGroup is answered, so a wait that completes at once because an assignment exists lets records of revoked
+    # partitions through
+    fw = ci.methods.get("wait_for_assignment")
+    ctx.anchor(fw is not None, "SubscriptionState.wait_for_assignment")
+    cw = ctx.cfg(fw)
+    rets = [r for r in cw.nodes if r.kind == "return"]
+    okw = bool(rets) and cw.exit not in cw.reachable([cw.entry], avoid=set(rets), exc=False)
+    why = "falls off its end"
+    for r in rets:
+        v = r.ast.value
+        if not isinstance(v, ast.Name):
+            okw, why = False, f"returns `{unparse(v) if v is not None else None}`"
+            break
+        ds = local_defs(cw, v.id)
+        fresh = len(ds) == 1 and isinstance(ds[0].stmt, ast.Assign) and isinstance(ds[0].stmt.value, ast.Call) and call_name(ds[0].stmt.value) == "create_future"
+        regs = [x for x in cw.calls(attr="append") if unparse(x.ast.func.value) == "self._assignment_waiters" and unparse(arg_of(x.ast, 0)) == v.id]
+        registered = any(cw.dominates(x, r) for x in regs)
+        touched = [x for x in cw.nodes if x.kind == "call" and call_attr(x.ast) in ("set_result", "set_exception", "cancel") and unparse(x.ast.func.value) == v.id]
+        if not (fresh and registered and not touched):
+            okw = False
+            why = ("the returned future is not created by the call" if not fresh else
+                   f"line {r.lineno} returns a future that is not in _assignment_waiters" if not registered else
+                   f"the future is completed by wait_for_assignment itself (line {touched[0].lineno})")
+            break
+    ctx.ob(R, fw, fw.node, okw, f"wait_for_assignment: {why}: the gate's wait must end only when the NEXT assignment is installed", text="waiter-fresh-pending-registered")
     installers = {"assign_from_user", "assign_from_subscribed"}
     callers = set()
     for q, f_ in ctx.repo.funcs.items():
